@@ -102,17 +102,17 @@ EXACT = ('each function is verified against an EXACT characterisation of what it
          'variables: feas() == (old(feas()) and <the stated constraints>), which is soundness and completeness of the constraint set at once, for every instance size; ')
 PROPS['C01'] = dict(
     title='Reported matching is always a valid matching of the input instance',
-    functions=[LP + 'upper_lower_constraints', LP + 'run_optimisations', LP + 'run', MOD + '_get_pair_assignments', MOD + '_get_matching_string', MOD + 'set_project_lists', MOD + 'set_lecturer_lists'],
+    functions=[LP + 'upper_lower_constraints', LP + 'run_optimisations', LP + 'run', MOD + 'pulp_setup', 'solver:Solver.solve', MOD + '_get_pair_assignments', MOD + '_get_matching_string', MOD + 'set_project_lists', MOD + 'set_lecturer_lists'],
     lemmas=['C01/closure-pair', 'LISTSET/empty-append', 'LISTSET/iterate'], level='other',
-    level_text=EXACT + 'upper_lower_constraints adds exactly: every row sum <= 1, every project list sum within [lq, uq] (or the closure-gated pair), every lecturer list sum within [lq, uq]; run / run_optimisations never remove a constraint (constraints-only-grow).  NOT proved deductively (bounded stand-in): that project_lists / lecturer_lists hold exactly the pairs of that project / lecturer (ModelWF sum identity from set_project_lists), variable creation in pulp_setup, and reading the matching back in _get_pair_assignments / get_results',
+    level_text=EXACT + 'upper_lower_constraints adds exactly: every row sum <= 1, every project list sum within [lq, uq] (or the closure-gated pair), every lecturer list sum within [lq, uq]; run / run_optimisations never remove a constraint (constraints-only-grow); Model.pulp_setup creates exactly one binary variable per acceptable pair, named by student and project number (plus alpha / beta, the three bounded per-lecturer families and the closure variables when requested) and adds nothing else; Solver.solve builds a fresh problem, establishes every precondition of LP_Solver.run from the guarantees of the reader and the option parser and stores the status of the last solve.  NOT proved deductively (bounded stand-in): that project_lists / lecturer_lists hold each pair of that project / lecturer exactly once as a SUM identity (set_project_lists proves the element sets), and reading the matching back from the solution values in get_results',
     harness=True, bound='<= 4 students x <= 3 projects x <= 3 lecturers, 0-3 random criteria, real CBC',
     budget={'quick': 25, 'thorough': 300}, trusted=T_LP,
-    assumptions=['ModelWF list/sum agreement and the read-back of the matching are covered by the bounded stand-in only'])
+    assumptions=['ModelWF list/sum agreement and the read-back of the matching are covered by the bounded stand-in only', 'a student does not list one project twice (two pairs with equal numbers would share one variable name)'])
 PROPS['C02'] = dict(
     title='Solver reports Optimal exactly when a feasible matching exists; never errors',
-    functions=[LP + 'run', LP + 'run_optimisations'] + CRIT_FUNCS,
+    functions=[LP + 'run', LP + 'run_optimisations', MOD + 'pulp_setup', 'solver:Solver.solve'] + CRIT_FUNCS,
     lemmas=['SUM/ext', 'SUM/le', 'SUM/const', 'C02/size-bound'], level='other',
-    level_text=EXACT + 'run: never raises, solves at least once, returns the status of the last solve, only the last solve may have failed; every criterion creates a variable with a fresh literal name (duplicate names raise in PuLP).  NOT proved deductively (bounded stand-in): that the upper bound given to each objective variable admits the witness value of every feasible matching (witness-in-bounds), i.e. that criteria never turn a feasible instance infeasible',
+    level_text=EXACT + 'run: never raises, solves at least once, returns the status of the last solve, only the last solve may have failed; every criterion creates a variable with a fresh literal name (duplicate names raise in PuLP); Solver.solve never raises in either mode and hands LP_Solver.run a fresh problem with all variables the requested options need (Model.pulp_setup).  NOT proved deductively (bounded stand-in): that the upper bound given to each objective variable admits the witness value of every feasible matching (witness-in-bounds), i.e. that criteria never turn a feasible instance infeasible',
     harness=True, bound='<= 5 students x <= 3 projects x <= 3 lecturers incl. objective-bound stress instances, 0-3 random criteria, real CBC',
     budget={'quick': 30, 'thorough': 400}, trusted=T_LP,
     assumptions=['witness-in-bounds of the objective variables: bounded stand-in only', 'FLAT/sum assumed (T11)'])
@@ -140,14 +140,14 @@ PROPS['C05'] = dict(
     assumptions=['semantic equivalence of the alpha/beta/gamma system with the blocking-pair definition: bounded stand-in only'])
 PROPS['C14'] = dict(
     title='A run that was cut short or proved infeasible never presents a matching',
-    functions=[LP + 'perform_optimisation', LP + 'optimisation_generous', LP + 'optimisation_greedy', LP + 'run_optimisations', LP + 'run', MOD + 'get_results',
-               MOD + '_get_pair_assignments'],
+    functions=[LP + 'perform_optimisation', LP + 'optimisation_generous', LP + 'optimisation_greedy', LP + 'run_optimisations', LP + 'run', 'solver:Solver.solve', MOD + 'get_results',
+               'solver:Solver.get_results_short', 'solver:Solver.get_results_long', MOD + '_get_pair_assignments'],
     lemmas=['SUM/ext'], level='other',
-    level_text='the outcome of every prob.solve is arbitrary (any status code, any reported values; ghost history hist): proved for every number and kind of fault and every criteria sequence: after a solve whose status is not Optimal no further solve happens (generous / greedy per-rank loops, run_optimisations), run returns the status of the last = first failing solve, and Model.get_results shows a matching or statistics only when the stored status is Optimal and no timeout applies, the Timeout line exactly when a limit is set and the status is Not Solved or the elapsed time exceeds the limit, otherwise the stored status.  NOT proved deductively (bounded stand-in): Solver.solve storing run\'s result and the clock values in the model, and the clock axiom T4 for time-limit stops with an incumbent',
+    level_text='the outcome of every prob.solve is arbitrary (any status code, any reported values; ghost history hist): proved for every number and kind of fault and every criteria sequence: after a solve whose status is not Optimal no further solve happens (generous / greedy per-rank loops, run_optimisations), run returns the status of the last = first failing solve, and Model.get_results shows a matching or statistics only when the stored status is Optimal and no timeout applies, the Timeout line exactly when a limit is set and the status is Not Solved or the elapsed time exceeds the limit, otherwise the stored status; Solver.solve stores exactly the status returned by run (= the status of the last solve) and the time limit in the model, and the Solver-level getters hand the model\'s text through with these guarantees.  NOT proved deductively (bounded stand-in): the clock axiom T4 for time-limit stops with an incumbent, and the getters when -stab adds the stability_correct line',
     harness=True, bound='<= 4 students x <= 3 projects x <= 3 lecturers, 0-3 criteria, fault at solve number 0..4, 4-5 kinds, transient / persistent, pairs of faults',
     budget={'quick': 30, 'thorough': 400},
     trusted=T_LP + ['T4 clock axiom: a time-limit stop consumes at least timeLimit seconds (harness advances a fake clock)', 'T12 datetimes modelled as seconds'],
-    assumptions=['Solver.solve glue (status and times stored in the model): bounded stand-in only'])
+    assumptions=['datetime.now() is an arbitrary real (nothing assumed about successive readings); the stability_correct line of the getters is outside the contracts (C06 + bounded runs)'])
 PROPS['C11'] = dict(
     title='Printed statistics and listings describe the printed matching',
     functions=[MOD + f for f in ('_get_max_rank', '_get_cost', '_get_cost_sq', '_get_degree', '_get_profile', '_get_lec_abs_diffs', '_get_max_lec_abs_diff',
@@ -184,13 +184,14 @@ GETTER_HELPERS = ['_get_max_rank', '_get_cost', '_get_cost_sq', '_get_degree', '
                   'check_stability', 'get_num_assignments_projects', 'get_num_assignments_lecturers', 'get_worst_rank_projects', 'get_worst_rank_lecturers']
 PROPS['C18'] = dict(
     title='Result getters are read-only and re-solving is reproducible',
-    functions=[(MOD + f, {'force_pure': True}) for f in GETTER_HELPERS] + [(BF + 'get_results', {'force_pure': True})] + [LP + 'run', LP + 'run_optimisations'] + CRIT_FUNCS,
+    functions=[(MOD + f, {'force_pure': True}) for f in GETTER_HELPERS] + [(BF + 'get_results', {'force_pure': True})] + [('solver:Solver.' + f, {'force_pure': True}) for f in ('get_results_short', 'get_results_long', 'get_debug')]
+              + ['solver:Solver.solve', MOD + 'pulp_setup', LP + 'run', LP + 'run_optimisations'] + CRIT_FUNCS,
     lemmas=['SUM/ext'], level='other',
-    level_text='the LP run and every criterion leave the stored option lists untouched (list parameters unchanged: frame/param-*), so a second solve sees the same criteria and extras; frame obligations for Model.get_results (short and long), Model.get_debug, Brute_force_solver.get_results and every helper they call: at every return, every field of every object, every Pair attribute array and the ghost LP state (constraints, reported values, status, solve history) equal their values at entry, and no helper calls a nondeterministic external, so any interleaving of getters returns equal text; get_debug does not raise after a solve in either mode.  NOT proved deductively (bounded stand-in): the thin Solver-level getters, Solver.solve building a fresh problem and fresh variables (LP_Solver.__init__ / Model.pulp_setup), and reproducibility of the status and criterion values of a second solve (follows from C02-C04 given a fresh problem); decided for timeLimit=None only',
+    level_text='the LP run and every criterion leave the stored option lists untouched (list parameters unchanged: frame/param-*), so a second solve sees the same criteria and extras; frame obligations for Model.get_results (short and long), Model.get_debug, Brute_force_solver.get_results and every helper they call: at every return, every field of every object, every Pair attribute array and the ghost LP state (constraints, reported values, status, solve history) equal their values at entry, and no helper calls a nondeterministic external, so any interleaving of getters returns equal text; get_debug does not raise after a solve in either mode; the Solver-level getters are read-only as well; every Solver.solve builds a NEW problem (no constraint, no used objective-variable name survives from an earlier solve) and recreates every variable by name from the unchanged instance, so the second program is the first one.  NOT proved deductively (bounded stand-in): reproducibility of the status and criterion values of a second solve (follows from C02-C04 given a fresh problem); decided for timeLimit=None only',
     harness=True, bound='<= 4 students x <= 3 projects x <= 3 lecturers, LP (0-2 criteria, -pc, -stab) and brute force, call sequences of length <= 7',
     budget={'quick': 25, 'thorough': 300},
     trusted=T_LP + ['T12 strftime is a pure function of the stored start time'],
-    assumptions=['with a time limit the status line depends on the wall clock, which no contract models', 'Solver.solve re-initialisation: bounded stand-in only'])
+    assumptions=['with a time limit the status line depends on the wall clock, which no contract models', 'CBC determinism for equal programs (T3)'])
 PROPS['C09'] = dict(
     title='Every generated instance is solvable by the solver under the documented flags',
     functions=[GS + 'create_string_pref', FIO + '_get_simple_pref_list_and_ranks', GS + 'create_quotas', SPA + 'create_project_lecturers',
